@@ -102,6 +102,8 @@ type (
 		// takenOver is 1 if a new connection with the same client id has
 		// replaced this one.
 		takenOver int32
+		// connSeq is the number Broker.handleConn gave to this connection.
+		connSeq uint64
 	}
 )
 
@@ -299,11 +301,15 @@ func (c *Client) closeAndDelSession() {
 	// connection now and this one must leave them alone. The broker lock
 	// orders this cleanup against the take over in Broker.handleConn.
 	c.broker.Lock()
-	if atomic.LoadInt32(&c.takenOver) == 1 {
+	if atomic.LoadInt32(&c.takenOver) == 1 || c.broker.latestConn[c.info.cid] != c.connSeq {
+		// also a connection which was unregistered before the new one came
+		// (closed by the broker, session deleted by the admin) is not the
+		// latest one any more, and must not clean up twice either.
 		c.broker.Unlock()
 		c.close()
 		return
 	}
+	delete(c.broker.latestConn, c.info.cid)
 
 	c.broker.sessMgr.delLocal(c.info.cid)
 	if c.session.cleanSession() {
